@@ -14,6 +14,7 @@ CONSTANTS
   DsHist = 0
   DsOps = {}
   NMon = 0
+  Neg = TRUE
   Shape = "any"
 INVARIANT TypeOK
 INVARIANT InComp
